@@ -17,7 +17,8 @@ from harness.util import call, req, fmt
 
 PID = "C07"
 LEVEL = "exploration"
-RULE = ("Hypothesis draws pixel series (n 3..400) as quantile transforms of generated uniforms through gamma(shape 0.05..500, scale "
+RULE = ("[sixth seeded round] sub-check 'groups': 2-3 group sub-series with different zero shares / nodata cells / windows interleaved into one pixel; every group's cells are held to the definition evaluated on that group alone (gammastd_grp kernel and spi(groups=)). " +
+        "Hypothesis draws pixel series (n 3..400) as quantile transforms of generated uniforms through gamma(shape 0.05..500, scale "
         "0.1..1e4), stored as float64, int16 (rounded: ties frequent) or float32, with zero inflation 0..0.9, nodata placements, negative "
         "cells, two-valued tie-heavy windows and calibration sub-windows [c0,c1) of >= 2 steps; run through gammafit, gammastd, "
         "gammastd_yxt, gammastd_grp (one group) and DataArray.hdc.algo.spi. Oracle: SciPy evaluation of the definition with an "
@@ -217,15 +218,44 @@ def sub_oracle(case):
     return None
 
 
-SUBS = {"fit": sub_fit, "spi": sub_spi, "oracle": sub_oracle}
+def sub_groups(case, rec=None):
+    """Two or three group sub-series with their own zero shares, nodata cells and calibration windows, interleaved into ONE pixel
+    series: every group's cells must carry the definition's index of THAT group's sub-series (its own fit, its own p0)."""
+    parts = case["parts"]
+    dt, nd = parts[0]["dtype"], parts[0]["nodata"]
+    arrs = [_arrays(dict(p, dtype=dt, nodata=nd)) for p in parts]
+    order = np.array(case["order"], dtype="int16")
+    n = order.size
+    x = np.empty(n, dtype=dt)
+    for g, (xg, _, _) in enumerate(arrs):
+        req(int((order == g).sum()) == xg.size, "harness: order does not match the part sizes", "harness")
+        x[order == g] = xg
+    wins = [_window(p, a[0].size) for p, a in zip(parts, arrs)]
+    if case["path"] == "grp":
+        got = call("gammastd_grp", stats.gammastd_grp, x, order, len(parts), float(nd), np.array(wins, dtype="int16"))
+    else:
+        # the accessor takes ONE window for all groups (by date): only generated when every part has the default window
+        t = pd.date_range("2001-01-01", periods=n, freq="10D")
+        da = xr.DataArray(x.reshape(n, 1, 1), dims=("time", "y", "x"), coords={"time": t}, attrs={"nodata": nd})
+        names = case.get("names") or list(range(len(parts)))
+        res = call("hdc.algo.spi(groups=)", lambda: da.hdc.algo.spi(groups=[names[g] for g in order]))
+        got = res.transpose("y", "x", "time").values[0, 0]
+    why = None
+    for g, ((xg, okg, _), p) in enumerate(zip(arrs, parts)):
+        w = _compare("gammastd_grp group %d of %d (%s)" % (g, len(parts), case["path"]), np.asarray(got)[order == g], xg, okg, nd, wins[g], dict(p, dtype=dt), rec)
+        why = why or w
+    return why
+
+
+SUBS = {"fit": sub_fit, "spi": sub_spi, "oracle": sub_oracle, "groups": sub_groups}
 
 _u = st.floats(1e-6, 1 - 1e-6)
 
 
 @st.composite
-def pixel(draw, nmax, paths=("gammastd", "yxt", "grp", "accessor")):
+def pixel(draw, nmax, paths=("gammastd", "yxt", "grp", "accessor"), dtypes=("float64", "int16", "float32")):
     n = draw(st.one_of(st.integers(3, 12), st.integers(3, nmax)))
-    dtype = draw(st.sampled_from(["float64", "int16", "float32"]))
+    dtype = draw(st.sampled_from(list(dtypes)))
     kind = draw(st.sampled_from(["gamma", "gamma", "gamma", "two_values", "few_values", "zeros90"]))
     if kind == "zeros90":
         # exactly 90 % zeros among the valid cells: the property still promises the fit ("at most 90 % zeros")
@@ -312,6 +342,36 @@ def run(ctx):
                       "window" if case.get("window") else "full"])
 
     ctx.given("spi", pixel(ctx.n(150, 400)), ctx.n(1500, 20000), fn=f_spi)
+
+    @st.composite
+    def grouped(draw):
+        dt = draw(st.sampled_from(["int16", "float32"]))
+        k = draw(st.sampled_from([2, 2, 3]))
+        parts = [draw(pixel(40, paths=("grp",), dtypes=(dt,))) for _ in range(k)]
+        path = draw(st.sampled_from(["grp", "grp", "accessor"]))
+        if path == "accessor":
+            for p in parts:
+                p.pop("window", None)
+        sizes = [len(p["x"]) for p in parts]
+        how = draw(st.sampled_from(["blocked", "shuffled", "shuffled"]))
+        order = [g for g, m in enumerate(sizes) for _ in range(m)]
+        if how == "shuffled":
+            order = draw(st.permutations(order))
+        case = {"parts": parts, "order": list(order), "path": path}
+        if path == "accessor":
+            case["names"] = draw(st.sampled_from([None, ["wet", "dry", "mid"], ["10", "2", "7"]]))
+        return case
+
+    def f_grp(case):
+        why = sub_groups(case, rec)
+        if why:
+            rec.discard("groups", why.split(":")[0])
+        zs = sorted({round(p["zeros"] / max(1, len(p["x"])), 2) for p in case["parts"]})
+        rec.case("groups", case, nontrivial=len(zs) > 1 and why is None,
+                 cls=["path:" + case["path"], "k=%d" % len(case["parts"]), "zero_shares_differ" if len(zs) > 1 else "zero_shares_equal",
+                      "windows" if any(p.get("window") for p in case["parts"]) else "full"])
+
+    ctx.given("groups", grouped(), ctx.n(500, 6000), fn=f_grp)
 
     def f_or(case):
         why = sub_oracle(case)
